@@ -119,6 +119,11 @@ fn gen_case(ctx: &mut Ctx) -> Case {
 
 fn reply_elem(id: &str, items: &[Item]) -> E {
     let mut r = E::new(NS, "rpc-reply").attr("message-id", id);
+    if items.is_empty() {
+        // <rpc-reply ...></rpc-reply>, not the self-closed form (which the library does not read at
+        // all: known finding of C13, and then nobody can tell whose reply it was)
+        r = r.text("");
+    }
     for it in items {
         match it {
             Item::Err(e) => r.push(e.to_elem()),
@@ -185,11 +190,15 @@ fn run(ctx: &mut Ctx) -> Verdict {
     let seen: Arc<Mutex<Vec<(usize, Seen)>>> = Arc::default();
     let others_ok: Arc<Mutex<Vec<(usize, String)>>> = Arc::default();
     let (seen2, others2, case2) = (seen.clone(), others_ok.clone(), case.clone());
+    let order: Vec<usize> = (0..=case.others).map(|_| ctx.pick(8)).collect();
+    let order2 = order.clone();
+    let permute = ctx.pick(2) == 1;
+    ev!(ctx, "await order draws {order:?}, replies permuted: {permute}");
     let (q, exec) = drive(
         ctx,
         Box::new(Fake { case: case.clone(), n: 0 }),
         Some(hello_with(&[CAP_BASE10, CAP_CANDIDATE, CAP_JUNOS], "11")),
-        SchedCfg::default(),
+        SchedCfg { permute, ..SchedCfg::default() },
         move |net, _spawner| {
             Box::pin(async move {
                 let case = case2;
@@ -230,6 +239,13 @@ fn run(ctx: &mut Ctx) -> Verdict {
                         Ok(f) => futs.push((k, true, f)),
                         Err(e) => seen2.lock().unwrap().push((k, Seen::OtherErr(format!("send failed: {e:?}")))),
                     }
+                }
+                // the reply futures are awaited in a seeded order: a reader may take another caller's reply
+                // off the transport and has to file it under the right request
+                let mut futs = futs;
+                for i in (1..futs.len()).rev() {
+                    let j = order2.get(i).copied().unwrap_or(0) % (i + 1);
+                    futs.swap(i, j);
                 }
                 for (k, under_test, f) in futs {
                     let v = f.await;
@@ -315,13 +331,13 @@ pub static C08: PropSpec = PropSpec {
     runs: |t| if t == Tier::Thorough { 30_000_000 } else { 200_000 },
     enumerated: |_| 0,
     run,
-    rule: "one request of each reply type (lock, get, open-/close-configuration, load-configuration, commit-configuration) among 0-3 other outstanding requests; the server's reply is generated from the reply grammar: 0-4 rpc-error elements (all types/tags, severity error/warning, optional children; one in six with a vendor child such as Junos's <source-daemon> or an open-ended error-info child, which the library's reader may refuse - the reply must then still not be a success and no error may vanish from the reported list) and positive indications in every order, at top level or inside load-configuration-results with consistent or inconsistent load-error-count. Non-trivial = the document contains at least one rpc-error; distinct = distinct event-log hash (includes the generated document)",
+    rule: "one request of each reply type (lock, get, open-/close-configuration, load-configuration, commit-configuration) among 0-3 other outstanding requests, replies delivered in order or permuted and reply futures awaited in a seeded order; the server's reply is generated from the reply grammar: 0-4 rpc-error elements (all types/tags, severity error/warning, optional children; one in six with a vendor child such as Junos's <source-daemon> or an open-ended error-info child, which the library's reader may refuse - the reply must then still not be a success and no error may vanish from the reported list) and positive indications in every order, at top level or inside load-configuration-results with consistent or inconsistent load-error-count. Non-trivial = the document contains at least one rpc-error; distinct = distinct event-log hash (includes the generated document)",
     components: &[
         ("netconf session + message readers (rpc/mod.rs, rpc/error.rs, junos/mod.rs, junos/load_configuration.rs)", "real"),
         ("transport", "stub: in-memory"),
         ("NETCONF server", "model: replies generated from the grammar, delivered through the real receive path"),
     ],
-    assumptions: &["decided by generated peer behaviour, not by schedule: the schedule is fixed (in-order delivery)", "warnings followed by <ok/> may be reported either way (Junos sends them); only error-severity elements forbid success"],
+    assumptions: &["decided mainly by generated peer behaviour; the schedule varies only in the order in which the replies are delivered (in order or permuted) and in which the reply futures are awaited (seeded)", "warnings followed by <ok/> may be reported either way (Junos sends them); only error-severity elements forbid success"],
     watchdog_s: 30,
     stuck_is_verdict: false,
     serial: false,
